@@ -1,5 +1,139 @@
 import AvoVerif.Drv.Common
+import AvoVerif.Drv.C06
+import AvoVerif.Model.Mov
+import AvoVerif.Gen.Mov
+/-
+Protocol handlers of C08.
+-/
 namespace Avo.Drv.C08
-open Avo.Drv
-def handlers : List (String × Handler) := []
+open Avo Avo.Drv Avo.Instr Avo.Mov
+
+def F : Flags := ⟨Avo.Gen.tIsBoolean, Avo.Gen.tIsInteger, Avo.Gen.tIsUnsigned, Avo.Gen.tIsFloat⟩
+def rows : List RRow := Avo.Gen.mov.map resolve
+
+def dirOf : String → Option Dir
+  | "load" => some .load
+  | "store" => some .store
+  | _ => none
+
+def regOf : Operand → Option RegV
+  | .reg r => some r
+  | _ => none
+
+def extName : Ext → String
+  | .none => "none"
+  | .zero => "zero"
+  | .sign => "sign"
+
+/-- opcode name (string) → encoded constant of the semantics table -/
+def opcOfName (s : String) : Option Nat :=
+  (semTable.find? (fun e => Name.key e.1 == Name.keyOfStr s)).map (·.1)
+
+def bytesOfHex (s : String) : Option (List Nat) := unhex s
+
+def leNat (bs : List Nat) : Nat := bs.foldr (fun b acc => acc * 256 + b) 0
+
+def leBytes (n k : Nat) : List Nat := (List.range k).map (fun i => (n >>> (8 * i)) % 256)
+
+/-- sign- or zero-extension of the `w`-byte little-endian value `v` to `k` bytes -/
+def extend (e : Ext) (v w k : Nat) : Nat :=
+  match e with
+  | .sign => if w > 0 && (v >>> (8 * w - 1)) % 2 == 1 then v + ((2 ^ (8 * k) - 1) - (2 ^ (8 * w) - 1)) else v
+  | _ => v
+
+/-- Go's conversion of a component of type flags `t` (value `v`, `t.size` bytes)
+to the width `k` of a general-purpose register -/
+def goConvert (t : TypeInfo) (v k : Nat) : Nat :=
+  if isSigned F t then extend .sign v t.size k else v
+
+/-- where the value sits in the 64-byte register image: high-byte registers
+(mask 2) hold it in byte 1 -/
+def regOffset (r : RegV) : Nat := if r.kind == kindGP && r.mask == 2 then 1 else 0
+
+def judgeSel (d : Dir) (t : TypeInfo) (r : RegV) (outcome : List String) : String :=
+  match outcome with
+  | ["error"] => "ok"
+  | ["op", name] =>
+    match opcOfName name with
+    | none => "bad-unmodelled-opcode " ++ name
+    | some opc =>
+      match movSem opc r with
+      | none => "bad-unmodelled-opcode " ++ name
+      | some s =>
+        if s.memWidth != t.size then s!"bad-width access={s.memWidth} component={t.size}"
+        else if semOK F d t r s then "ok" else s!"bad-extension {extName s.ext} to {s.regBytes}"
+  | _ => "bad-outcome " ++ joinSp outcome
+
+def splitAtArrow : List String → List String → Option (List String × List String)
+  | _, [] => none
+  | acc, "=>" :: rest => some (acc.reverse, rest)
+  | acc, t :: rest => splitAtArrow (t :: acc) rest
+
+def kv (pref : String) (tok : String) : Option String :=
+  if tok.startsWith pref then some ((tok.drop pref.length).toString) else none
+
+def handle : Handler
+  | ["mov", d, ti, ts, m, r] => do
+    let d ← dirOf d; let ti ← ti.toNat?; let ts ← ts.toNat?
+    let m ← C06.parseOp m; let r ← C06.parseOp r; let rv ← regOf r
+    match loadStore rows d m rv ⟨0, ti, ts⟩ with
+    | none => some "error"
+    | some opc => some ("op " ++ Name.toStr opc)
+  | "accept-movsel" :: d :: _tname :: _rc :: ti :: ts :: r :: "=>" :: outcome => do
+    let d ← dirOf d; let ti ← ti.toNat?; let ts ← ts.toNat?
+    let r ← C06.parseOp r; let rv ← regOf r
+    some (judgeSel d ⟨0, ti, ts⟩ rv outcome)
+  | ["accept-nonprim", _, _, outcome] => some (if outcome == "error" then "ok" else "bad-nonprimitive-component-moved")
+  -- model of the instruction on the CPU: register image after a load
+  | ["cpu-load", name, r, mem] => do
+    let r ← C06.parseOp r; let rv ← regOf r
+    let mem ← bytesOfHex mem
+    let opc ← opcOfName name
+    let s ← movSem opc rv
+    let v := leNat (mem.take s.memWidth)
+    if rv.kind == kindGP then
+      some (hex (leBytes (extend s.ext v s.memWidth s.regBytes) s.regBytes))
+    else
+      -- vector / mask destinations: the bytes read, zero-extended (16 bytes reported, 8 for masks)
+      let k := if rv.kind == kindOpmask then 8 else max 16 s.memWidth
+      some (hex (leBytes v k))
+  -- model of the instruction on the CPU: memory image after a store
+  | ["cpu-store", name, r, reg, mem] => do
+    let r ← C06.parseOp r; let rv ← regOf r
+    let reg ← bytesOfHex reg; let mem ← bytesOfHex mem
+    let opc ← opcOfName name
+    let s ← movSem opc rv
+    some (hex (reg.take s.memWidth ++ mem.drop s.memWidth))
+  -- the property on what the CPU did
+  | "accept-cpu" :: d :: _tname :: _rc :: ti :: ts :: r :: rest => do
+    let d ← dirOf d; let ti ← ti.toNat?; let ts ← ts.toNat?
+    let r ← C06.parseOp r; let rv ← regOf r
+    let t : TypeInfo := ⟨0, ti, ts⟩
+    match d, rest with
+    | .load, [_opc, v, reg, gox, dep] =>
+      -- v: component bytes; reg: register image (64 bytes); gox: what Go's own conversion gives (register width);
+      -- dep: number of leading memory bytes the register depends on
+      let v ← bytesOfHex ((← kv "v=" v)); let reg ← bytesOfHex ((← kv "reg=" reg)); let gox ← bytesOfHex ((← kv "go=" gox))
+      let dep ← (← kv "dep=" dep).toNat?
+      let off := regOffset rv
+      if dep != ts then some s!"bad-width access={dep} component={ts}" else
+      if rv.kind == kindGP then
+        let want := leBytes (goConvert t (leNat v) rv.size) rv.size
+        if (reg.drop off).take rv.size != want then some "bad-value-not-go-conversion"
+        else if gox != want then some "bad-go-oracle-disagrees" else some "ok"
+      else
+        if reg.take ts != v then some "bad-low-bytes" else some "ok"
+    | .store, [_opc, src, before, after] =>
+      let src ← bytesOfHex ((← kv "src=" src)); let before ← bytesOfHex ((← kv "before=" before))
+      let after ← bytesOfHex ((← kv "after=" after))
+      let off := regOffset rv
+      if after.take ts != (src.drop off).take ts then some "bad-stored-bytes"
+      else if after.drop ts != before.drop ts then some s!"bad-width adjacent-bytes-overwritten component={ts}"
+      else some "ok"
+    | _, _ => none
+  | _ => none
+
+def handlers : List (String × Handler) :=
+  ["mov", "accept-movsel", "accept-nonprim", "cpu-load", "cpu-store", "accept-cpu"].map (·, handle)
+
 end Avo.Drv.C08
